@@ -16,6 +16,7 @@ fn main() {
     let args: Vec<String> = std::env::args().collect();
     if args.len() >= 2 && args[1] == "render" { ir::run_render(); return; }
     if args.len() >= 2 && args[1] == "grp" { std::panic::set_hook(Box::new(|_| {})); grp::run_grp(); return; }
+    if args.len() >= 2 && args[1] == "fwd" { std::panic::set_hook(Box::new(|_| {})); ir::run_fwd(); return; }
     if args.len() >= 2 && args[1] == "ir" { std::panic::set_hook(Box::new(|_| {})); ir::run_ir(); return; }
     if args.len() < 3 { eprintln!("usage: gen expand <file> | gen ir"); std::process::exit(2); }
     match args[1].as_str() {
